@@ -107,7 +107,13 @@ pub fn gen_extras(t: &mut Tape, reserved: &[&str], max: usize) -> Vec<(String, J
     let mut out: Vec<(String, J)> = vec![];
     for _ in 0..t.choose(max + 1) {
         let mut k = match t.choose(3) {
-            0 => (*t.pick(&["_urgent_update", "realm_id", "x-ext", "sha256", "Status", "APPID"])).to_string(),
+            // familiar extension names, case variants of protocol keys, and the library's own (Rust) field names: an
+            // extension attribute may be called anything the protocol does not define for that object
+            0 => (*t.pick(&[
+                "_urgent_update", "realm_id", "x-ext", "sha256", "Status", "APPID", "id", "hint", "name", "apps", "events", "update_check", "protocol_version",
+                "extra_attributes", "fingerprint", "elapsed_days", "elapsed_seconds", "version", "codebase", "url", "action", "package", "date_last_active", "Cohort", "info", "run",
+            ]))
+            .to_string(),
             _ => t.text(6),
         };
         while reserved.contains(&k.as_str()) || out.iter().any(|(e, _)| *e == k) {
